@@ -30,6 +30,8 @@ import (
 	"fmt"
 	"math/rand"
 	"net"
+	"os"
+	"runtime"
 	"strings"
 	"sync"
 	"testing"
@@ -43,7 +45,7 @@ const (
 	prop            = "C26"
 	svcID    uint16 = 7
 	srvNode         = transport.NodeID(2)
-	waitLong        = 30 * time.Second
+	waitLong        = 60 * time.Second
 )
 
 // ---- tokens --------------------------------------------------------------------------
@@ -353,6 +355,7 @@ type replay struct {
 	calls map[string]*rcall
 	okSet map[string]bool // handlers released with ok
 	noSet map[string]bool // handlers released with an error
+	held  string          // the call issued while writes are held (its frame sits in the socket's Write)
 	bad   bool
 }
 
@@ -399,6 +402,17 @@ func (r *replay) await(step int, name string) bool {
 	case c.got = <-c.done:
 		return r.judge(step, c)
 	case <-time.After(waitLong):
+		if os.Getenv("VERIF_DEBUG_STACKS") != "" {
+			buf := make([]byte, 1<<20)
+			fmt.Fprintf(os.Stderr, "%s\n", buf[:runtime.Stack(buf, true)])
+			r.w.mu.Lock()
+			for i, c := range r.w.conns {
+				c.mu.Lock()
+				fmt.Fprintf(os.Stderr, "DBG conn %d dead=%v holdR=%v holdW=%v local=%v\n", i, c.dead, c.holdR, c.holdW, c.Conn.LocalAddr())
+				c.mu.Unlock()
+			}
+			r.w.mu.Unlock()
+		}
 		r.diverge(step, "call "+name+" did not return")
 		return false
 	}
@@ -471,10 +485,13 @@ func runReplay(b kit.Behaviour, rep *kit.Report) (clean bool) {
 				if !r.arrived(si, name) {
 					return
 				}
-			} else if g := w.current(); g == nil || !g.awaitBlockedWrite(waitLong) {
+			} else {
 				// writes are held: the request must have reached the socket before the next step
-				r.diverge(si, "the request of "+name+" did not reach the held socket")
-				return
+				if g := w.current(); g == nil || !g.awaitBlockedWrite(waitLong) {
+					r.diverge(si, "the request of "+name+" did not reach the held socket")
+					return
+				}
+				r.held = name
 			}
 		case "Respond":
 			name := kit.Str(ev, "c")
@@ -496,6 +513,7 @@ func runReplay(b kit.Behaviour, rep *kit.Report) (clean bool) {
 				return
 			}
 			g.kill()
+			r.held = ""
 			select {
 			case <-g.ownerClosed:
 			case <-time.After(waitLong):
@@ -509,6 +527,15 @@ func runReplay(b kit.Behaviour, rep *kit.Report) (clean bool) {
 		case "OpenWrites":
 			g := w.current()
 			g.set(&g.holdW, false)
+			// The frame that was parked inside Write is past the writer's context check and is sent
+			// even if its caller has given up meanwhile (the specification drops it; no caller can
+			// tell).  Wait for it to arrive, so that the writer is idle before the next step.
+			if r.held != "" {
+				if !r.arrived(si, r.held) {
+					return
+				}
+				r.held = ""
+			}
 			for _, x := range kit.List(ev, "reach") {
 				if !r.arrived(si, x.(string)) {
 					return
